@@ -8,6 +8,7 @@ package c17
 
 import (
 	"fmt"
+	"sort"
 	"strconv"
 	"strings"
 )
@@ -120,16 +121,21 @@ func stepTick(c cfg, s st, pick, dur int) (st, int) {
 
 type pspec struct {
 	idx, dur int
-	offs     []int
+	offs     []int // NotifyNewTransactions() this many ms after the production's start
+	probes   []int // pure time markers this many ms after the production's start
 }
 
 type script struct {
-	mode                   string
-	B, I, span, edge, dd   int
-	tol                    int
-	prods                  []pspec
-	raw                    string
+	mode           string
+	B, I, span, dd int
+	tol, jit, upto int
+	prods          []pspec
+	raw            string
+	guard          int // generator only: see near()
+	frontierCap    int // generator only: give up (finals returns nil) when more runs than this are alive
 }
+
+func (sc *script) cfg() cfg { return cfg{block: sc.B, idle: sc.I, lazy: sc.mode == "lazy"} }
 
 func (sc *script) spec(k int) *pspec {
 	for i := range sc.prods {
@@ -148,6 +154,12 @@ func (sc *script) durOf(k int) int {
 func (sc *script) offsOf(k int) []int {
 	if p := sc.spec(k); p != nil {
 		return p.offs
+	}
+	return nil
+}
+func (sc *script) probesOf(k int) []int {
+	if p := sc.spec(k); p != nil {
+		return p.probes
 	}
 	return nil
 }
@@ -173,6 +185,18 @@ func parseNat(s string) (int, bool) {
 	return n, err == nil
 }
 
+func parseOffs(s string) []int {
+	var out []int
+	if s != "-" && s != "" {
+		for _, o := range strings.Split(s, "+") {
+			if n, ok := parseNat(o); ok {
+				out = append(out, n)
+			}
+		}
+	}
+	return out
+}
+
 func parseScript(s string) ([]pspec, bool) {
 	if s == "-" || s == "" {
 		return nil, true
@@ -180,7 +204,7 @@ func parseScript(s string) ([]pspec, bool) {
 	var out []pspec
 	for _, it := range strings.Split(s, ",") {
 		f := strings.Split(it, ":")
-		if len(f) != 3 {
+		if len(f) != 3 && len(f) != 4 {
 			return nil, false
 		}
 		k, ok1 := parseNat(f[0])
@@ -188,17 +212,24 @@ func parseScript(s string) ([]pspec, bool) {
 		if !ok1 || !ok2 {
 			return nil, false
 		}
-		p := pspec{idx: k, dur: d}
-		if f[2] != "-" && f[2] != "" {
-			for _, o := range strings.Split(f[2], "+") {
-				if n, ok := parseNat(o); ok {
-					p.offs = append(p.offs, n)
-				}
-			}
+		p := pspec{idx: k, dur: d, offs: parseOffs(f[2])}
+		if len(f) == 4 {
+			p.probes = parseOffs(f[3])
 		}
 		out = append(out, p)
 	}
 	return out, true
+}
+
+func showOffs(l []int) string {
+	if len(l) == 0 {
+		return "-"
+	}
+	var os []string
+	for _, x := range l {
+		os = append(os, strconv.Itoa(x))
+	}
+	return strings.Join(os, "+")
 }
 
 func showScript(ps []pspec) string {
@@ -207,69 +238,214 @@ func showScript(ps []pspec) string {
 	}
 	var items []string
 	for _, p := range ps {
-		o := "-"
-		if len(p.offs) > 0 {
-			var os []string
-			for _, x := range p.offs {
-				os = append(os, strconv.Itoa(x))
-			}
-			o = strings.Join(os, "+")
-		}
-		items = append(items, fmt.Sprintf("%d:%d:%s", p.idx, p.dur, o))
+		items = append(items, fmt.Sprintf("%d:%d:%s:%s", p.idx, p.dur, showOffs(p.offs), showOffs(p.probes)))
 	}
 	return strings.Join(items, ",")
 }
 
-type sim struct {
-	s      st
-	sched  []int
-	k      int
-	starts []int // in order (the Lean side keeps them reversed; equality is the same)
+// ev: a scripted NotifyNewTransactions call (notif) or a probe, delivered at some instant of [lo, hi].
+type ev struct {
+	lo, hi int
+	notif  bool
+	k, j   int
 }
 
-func (x sim) key() string {
-	return fmt.Sprintf("%v|%v|%d|%v", x.s, x.sched, x.k, x.starts)
+func (e ev) key() [5]int {
+	n := 1
+	if e.notif {
+		n = 0
+	}
+	return [5]int{e.hi, e.lo, n, e.k, e.j}
 }
 
-func insertSorted(t int, l []int) []int {
-	out := make([]int, 0, len(l)+1)
+func lexLe(a, b [5]int) bool {
+	for i := range a {
+		if a[i] < b[i] {
+			return true
+		}
+		if b[i] < a[i] {
+			return false
+		}
+	}
+	return true
+}
+
+func insertEv(e ev, l []ev) []ev {
+	out := make([]ev, 0, len(l)+1)
 	i := 0
-	for i < len(l) && !(t <= l[i]) {
+	for i < len(l) && !lexLe(e.key(), l[i].key()) {
 		out = append(out, l[i])
 		i++
 	}
-	out = append(out, t)
+	out = append(out, e)
 	out = append(out, l[i:]...)
 	return out
 }
 
+func (e ev) tok() string {
+	c := "p"
+	if e.notif {
+		c = "n"
+	}
+	return fmt.Sprintf("%s%d.%d", c, e.k, e.j)
+}
+
+type sim struct {
+	s      st
+	sched  []ev
+	k      int
+	toks   []string // in order (the Lean side keeps them reversed; equality is the same)
+	starts []int
+	// generator only (not part of the Lean driver, functions of the fields above):
+	flags  int   // near-ties the exploration does not branch on
+	ttimes []int // instant of every token
+	thr    []int // instants at which a timer case ran or a production ended
+}
+
+func (x sim) key() string {
+	b := make([]byte, 0, 160)
+	num := func(n int) {
+		b = strconv.AppendInt(b, int64(n), 10)
+		b = append(b, ' ')
+	}
+	flag := func(f bool) {
+		if f {
+			b = append(b, 'T')
+		} else {
+			b = append(b, 'F')
+		}
+	}
+	s := x.s
+	num(s.now)
+	num(s.lazyT)
+	num(s.blockT)
+	flag(s.txs)
+	flag(s.ch)
+	flag(s.hasFlight)
+	num(s.fl.start)
+	num(s.fl.fin)
+	flag(s.fl.viaBlock)
+	b = append(b, '|')
+	for _, e := range x.sched {
+		num(e.lo)
+		num(e.hi)
+		flag(e.notif)
+		num(e.k)
+		num(e.j)
+	}
+	b = append(b, '|')
+	num(x.k)
+	for _, p := range x.starts {
+		num(p)
+	}
+	b = append(b, '|')
+	for _, t := range x.toks {
+		b = append(b, t...)
+		b = append(b, ',')
+	}
+	return string(b)
+}
+
+func mkEvs(jit, p, k int, notif bool, offs []int) []ev {
+	var out []ev
+	for j, o := range offs {
+		lo := p + o - jit
+		if lo < p {
+			lo = p
+		}
+		out = append(out, ev{lo: lo, hi: p + o + jit, notif: notif, k: k, j: j})
+	}
+	return out
+}
+
+// near: two timer expiries closer than `guard` ms but not equal — a near-tie the exploration does not
+// branch on (equal deadlines are a select tie, which it does); the generator keeps such scenarios out
+// when a notification is pending at that moment (then the order of the two timers matters).
+func near(a, b, guard int) bool { return a != b && abs(a-b) < guard }
+
+func app[T any](l []T, x T) []T { return append(append([]T(nil), l...), x) }
+
 func tickWith(c cfg, sc *script, x sim, pick int) sim {
 	s2, p := stepTick(c, x.s, pick, sc.durOf(x.k))
+	y := x
+	y.s = s2
+	now := x.s.now
 	if p < 0 {
-		return sim{s: s2, sched: x.sched, k: x.k, starts: x.starts}
+		if x.s.hasFlight && !s2.hasFlight {
+			y.toks, y.ttimes, y.thr = app(x.toks, fmt.Sprintf("e%d", x.k-1)), app(x.ttimes, now), app(x.thr, now)
+		} else if s2.blockT != x.s.blockT {
+			y.thr = app(x.thr, now) // block tick without transactions
+		}
+		return y
 	}
-	sched := x.sched
-	for _, o := range sc.offsOf(x.k) {
-		sched = insertSorted(p+o, sched)
+	cause := "N"
+	if c.lazy {
+		cause = "L"
+		if s2.fl.viaBlock {
+			cause = "B"
+		}
+		if sc.guard > 0 && (x.s.txs || x.s.ch) && near(x.s.lazyT, x.s.blockT, sc.guard) {
+			y.flags++
+		}
 	}
-	starts := append(append([]int(nil), x.starts...), p)
-	return sim{s: s2, sched: sched, k: x.k + 1, starts: starts}
+	for _, e := range mkEvs(sc.jit, p, x.k, true, sc.offsOf(x.k)) {
+		y.sched = insertEv(e, y.sched)
+	}
+	for _, e := range mkEvs(sc.jit, p, x.k, false, sc.probesOf(x.k)) {
+		y.sched = insertEv(e, y.sched)
+	}
+	y.k = x.k + 1
+	y.starts = app(x.starts, p)
+	y.toks, y.ttimes, y.thr = app(x.toks, fmt.Sprintf("%s%d", cause, x.k)), app(x.ttimes, now), app(x.thr, now)
+	return y
+}
+
+func deliver(x sim, e ev) sim {
+	y := x
+	if e.notif {
+		y.s = stepNotify(x.s)
+	}
+	y.sched = nil
+	for _, f := range x.sched {
+		if f != e {
+			y.sched = append(y.sched, f)
+		}
+	}
+	y.toks, y.ttimes = app(x.toks, e.tok()), app(x.ttimes, x.s.now)
+	return y
+}
+
+func loopReady(c cfg, s st) bool {
+	if s.hasFlight {
+		return s.fl.fin <= s.now
+	}
+	return len(enabled(c, s)) > 0
 }
 
 func succs(c cfg, sc *script, x sim) []sim {
-	if len(x.sched) > 0 && x.sched[0] <= x.s.now {
-		return []sim{{s: stepNotify(x.s), sched: x.sched[1:], k: x.k, starts: x.starts}}
+	now := x.s.now
+	var out []sim
+	overdue := false
+	for _, e := range x.sched {
+		if e.lo <= now {
+			out = append(out, deliver(x, e))
+		}
+		if !(now < e.hi) {
+			overdue = true
+		}
 	}
-	if x.s.hasFlight {
-		return []sim{tickWith(c, sc, x, 0)}
+	ready := loopReady(c, x.s)
+	if ready {
+		if x.s.hasFlight {
+			out = append(out, tickWith(c, sc, x, 0))
+		} else {
+			for i := 0; i < len(enabled(c, x.s)); i++ {
+				out = append(out, tickWith(c, sc, x, i))
+			}
+		}
 	}
-	n := len(enabled(c, x.s))
-	if n <= 1 {
-		return []sim{tickWith(c, sc, x, 0)}
-	}
-	out := make([]sim, 0, n)
-	for i := 0; i < n; i++ {
-		out = append(out, tickWith(c, sc, x, i))
+	if !ready && !overdue {
+		out = append(out, tickWith(c, sc, x, 0))
 	}
 	return out
 }
@@ -290,20 +466,24 @@ func closure(c cfg, sc *script, fuel int, x sim) []sim {
 }
 
 func dedup(l []sim) []sim {
-	seen := map[string]bool{}
+	seen := map[string]int{}
 	var out []sim
 	for _, x := range l {
 		k := x.key()
-		if !seen[k] {
-			seen[k] = true
-			out = append(out, x)
+		if i, ok := seen[k]; ok {
+			if x.flags > out[i].flags {
+				out[i].flags = x.flags
+			}
+			continue
 		}
+		seen[k] = len(out)
+		out = append(out, x)
 	}
 	return out
 }
 
-// runsOf: every admissible list of production starts (< horizon) over all select resolutions.
-func runsOf(c cfg, sc *script, horizon int) [][]int {
+// finals: the states of every admissible run at `horizon`.
+func finals(c cfg, sc *script, horizon int) []sim {
 	fr := []sim{{}}
 	for fuel := horizon + 1; fuel > 0; fuel-- {
 		if len(fr) == 0 || fr[0].s.now >= horizon {
@@ -311,26 +491,17 @@ func runsOf(c cfg, sc *script, horizon int) [][]int {
 		}
 		var nx []sim
 		for _, x := range fr {
-			nx = append(nx, closure(c, sc, 16, x)...)
+			nx = append(nx, closure(c, sc, 32, x)...)
 		}
-		fr = dedup(nx)
+		if len(nx) > 1 {
+			nx = dedup(nx)
+		}
+		if sc.frontierCap > 0 && len(nx) > sc.frontierCap {
+			return nil
+		}
+		fr = nx
 	}
-	seen := map[string]bool{}
-	var out [][]int
-	for _, x := range fr {
-		var r []int
-		for _, p := range x.starts {
-			if p < horizon {
-				r = append(r, p)
-			}
-		}
-		k := fmt.Sprint(r)
-		if !seen[k] {
-			seen[k] = true
-			out = append(out, r)
-		}
-	}
-	return out
+	return fr
 }
 
 func natList(l []int) string {
@@ -344,36 +515,68 @@ func natList(l []int) string {
 	return strings.Join(parts, ",")
 }
 
-func countBelow(span int, r []int) int {
-	n := 0
-	for _, p := range r {
-		if p < span {
-			n++
-		}
+func outcomeOf(upto int, toks []string) string {
+	if len(toks) > upto {
+		toks = toks[:upto]
 	}
-	return n
+	if len(toks) == 0 {
+		return "-"
+	}
+	return strings.Join(toks, ",")
 }
 
-// modelLine is the canonical observation line, identical to Drv.C17.step's.
-func modelLine(sc *script) (string, [][]int) {
-	c := cfg{block: sc.B, idle: sc.I, lazy: sc.mode == "lazy"}
-	rs := runsOf(c, sc, sc.span+sc.edge)
-	lo, hi := 0, 0
-	for i, r := range rs {
-		n := countBelow(sc.span, r)
-		if i == 0 || n < lo {
-			lo = n
-		}
-		if n > hi {
-			hi = n
+func sortStrs(l []string) []string {
+	seen := map[string]bool{}
+	var out []string
+	for _, s := range l {
+		if !seen[s] {
+			seen[s] = true
+			out = append(out, s)
 		}
 	}
-	var shown []string
-	for i, r := range rs {
-		if i >= 4 {
-			break
-		}
-		shown = append(shown, natList(r))
+	sort.Strings(out)
+	return out
+}
+
+func showSet(max int, l []string) string {
+	shown := l
+	if len(shown) > max {
+		shown = shown[:max]
 	}
-	return fmt.Sprintf("count=[%d,%d] runs=%d %s", lo, hi, len(rs), strings.Join(shown, "|")), rs
+	return fmt.Sprintf("%d %s", len(l), strings.Join(shown, "|"))
+}
+
+// prediction of the model for one script: admissible outcomes (event orders cut after `upto` events),
+// admissible runs (production start times) and, for the generator, the number of near-ties met.
+type prediction struct {
+	outs  []string
+	runs  [][]int
+	rstrs []string
+	flags int
+}
+
+func predict(sc *script) prediction {
+	fs := finals(sc.cfg(), sc, sc.span)
+	var p prediction
+	var os, rs []string
+	seen := map[string]bool{}
+	for _, x := range fs {
+		os = append(os, outcomeOf(sc.upto, x.toks))
+		r := natList(x.starts)
+		rs = append(rs, r)
+		if !seen[r] {
+			seen[r] = true
+			p.runs = append(p.runs, x.starts)
+		}
+		if x.flags > p.flags {
+			p.flags = x.flags
+		}
+	}
+	p.outs, p.rstrs = sortStrs(os), sortStrs(rs)
+	return p
+}
+
+// obsLine: the canonical observation line (Drv.C17.step's), with `outs` = the given outcome set.
+func obsLine(outs []string, p prediction) string {
+	return fmt.Sprintf("outs=%s runs=%s", showSet(12, outs), showSet(4, p.rstrs))
 }
